@@ -4,6 +4,8 @@ package tracer
 
 import (
 	"bytes"
+	"encoding/binary"
+	"fmt"
 	"io"
 	"strings"
 	"testing"
@@ -87,6 +89,62 @@ func TestVerifC20Wire(t *testing.T) {
 				cl = append(cl, "reused")
 			}
 			return cl, c.Reuse > 0 || len(c.Payload) == 0 || c.Name != strings.ToLower(c.Name)
+		},
+	})
+}
+
+// ---- C20 (tracer part, whole path): a compressed end-of-stream message through the body tracer ----
+
+// TestVerifC20WireEndStream: a streamed response whose end-of-stream message is compressed with each encoding, of
+// any size from nothing to 1 MiB, goes through the tracing round tripper (the C14 driver and oracle, borrowed): the
+// traced end-stream content is what the independent encoder was given, the application sees the bytes unchanged.
+func TestVerifC20WireEndStream(t *testing.T) {
+	verifkit.Run(t, "C20WireEndStream", verifkit.Spec[vfC14Case]{
+		Gen: func(t *rapid.T) vfC14Case {
+			enc := rapid.SampledFrom(verifkit.EncodingNames).Draw(t, "encoding")
+			web := rapid.Bool().Draw(t, "grpcWeb")
+			size := rapid.SampledFrom([]int{0, 1, 40, 1000, 4095, 4096, 32768, 65535, 65536, 65537, 100000, 1 << 20}).Draw(t, "size")
+			if rapid.Bool().Draw(t, "otherSize") {
+				size = rapid.IntRange(0, 300000).Draw(t, "anySize")
+			}
+			var content string
+			ct, flags := "application/connect+proto", byte(0x03)
+			if web {
+				ct, flags = "application/grpc-web+proto", 0x81
+				content = "grpc-status: 0\r\nx-big: " + strings.Repeat("v", size) + "\r\n"
+			} else {
+				content = `{"metadata":{"x-big":["` + strings.Repeat("v", size) + `"]}}`
+			}
+			var body bytes.Buffer
+			frame := func(flags byte, payload []byte) {
+				var p [5]byte
+				p[0] = flags
+				binary.BigEndian.PutUint32(p[1:], uint32(len(payload)))
+				body.Write(p[:])
+				body.Write(payload)
+			}
+			frame(0, []byte("message"))
+			frame(flags, verifkit.IndepEncode(enc, []byte(content)))
+			resp := vfBodySpec{ContentType: ct, Encoding: enc, Body: body.Bytes(), End: "eof", Items: fmt.Sprintf("{flags=0 len=7} {flags=%#x end-stream of %d bytes, %s}", flags, len(content), enc)}
+			for i, n := 0, rapid.IntRange(0, 3).Draw(t, "ncuts"); i < n; i++ {
+				resp.Cuts = append(resp.Cuts, rapid.IntRange(1, body.Len()).Draw(t, "cut"))
+			}
+			resp.Cuts2 = []int{5, 12}
+			return vfC14Case{Side: rapid.SampledFrom([]string{"client", "server"}).Draw(t, "side"), Status: 200,
+				Req: vfBodySpec{ContentType: ct, End: "eof"}, Resp: resp}
+		},
+		Check: vfC14Check,
+		Classify: func(c vfC14Case) ([]string, bool) {
+			var size int
+			if i := strings.Index(c.Resp.Items, "end-stream of "); i >= 0 {
+				_, _ = fmt.Sscanf(c.Resp.Items[i:], "end-stream of %d bytes", &size)
+			}
+			cl := []string{"encoding:" + c.Resp.Encoding, c.Resp.ContentType, "side:" + c.Side}
+			if size > 65536 {
+				cl = append(cl, "end-stream>64KiB")
+			}
+			// non-trivial: a real compression algorithm and more content than fits any small buffer
+			return cl, c.Resp.Encoding != "identity" && size > 4096
 		},
 	})
 }
